@@ -201,6 +201,37 @@ pub fn judge(prop: &str, family: &str, m: &LFragMovie, l: &mut Local) {
             }
         }
     }
+    // mode 2b: the media segment does not begin at position 0 of its stream — another box precedes it and the reader is
+    // handed over positioned behind that box (a segment inside a longer stream).  All positions stay absolute.
+    {
+        let mut nodes = vec![crate::refmp4::tree::Node::leaf(b"free", vec![0x5a; 32])];
+        nodes.extend(media.iter().cloned());
+        let (ib, _) = serialize(&init);
+        let (mb, anchors) = serialize(&nodes);
+        l.evaluations += 1;
+        let hexs = if ib.len() + mb.len() <= 4096 { Some(format!("{}|{}", hex(&ib), hex(&mb))) } else { None };
+        let opened = guard(|| {
+            Mp4Reader::read_header(Cursor::new(&ib[..]), ib.len() as u64).and_then(|i| {
+                let mut cur = Cursor::new(&mb[..]);
+                cur.set_position(40);
+                i.read_fragment_header(cur, mb.len() as u64)
+            })
+        });
+        match opened {
+            Ok(Ok(mut r)) => {
+                l.validated += 1;
+                if compare_pub(prop, "separate_segments_stream_not_at_zero", family, m, &mut r, &exp, &anchors, hexs, l) {
+                    l.outcome(&format!("ok:separate_at_40:{}", family));
+                } else {
+                    l.outcome("VIOLATION");
+                }
+            }
+            o => {
+                l.outcome("open_failed");
+                l.violations.push(Violation::new(prop, "consistent_file_does_not_open", json!({"engine": "shape_frag", "family": family, "mode": "separate_segments_stream_not_at_zero", "movie": fmovie_json(m), "input_hex": hexs})).obs(json!(format!("{:?}", o.map(|r| r.map(|_| ()).map_err(|e| e.to_string()))))));
+            }
+        }
+    }
     // modes 3 and 4: the reader the segment is opened against is not a pure initialization segment — it already holds
     // the first fragment (init + first moof/mdat in one stream), or is itself a reader derived for an earlier segment.
     // The derived reader must describe exactly the segment it was opened on.
